@@ -344,6 +344,18 @@ func (p *Payload) extractCriticalFieldsFromBytes(data []byte, traceIdFieldNames,
 
 		// Handle special trace ID and parent ID fields
 		if !handled && valueType == msgp.StrType {
+			// An ID field may be a sampler key field as well (a rule condition on
+			// trace.parent_id, a dynamic sampler keyed on a trace ID field). Its value is
+			// consumed here, so it has to be memoized here too; otherwise the field ends
+			// up in missingFields below and the samplers are told it does not exist.
+			memoizeIfKeyField := func(value string) {
+				if idx, ok := sliceContains(samplingKeyFields, keyBytes); ok {
+					if _, seen := p.memoizedFields[samplingKeyFields[idx]]; !seen {
+						keysFound++
+						p.Set(samplingKeyFields[idx], value)
+					}
+				}
+			}
 			rank, ok := sliceContains(traceIdFieldNames, keyBytes)
 			if ok && rank < traceIDRank {
 				var traceID string
@@ -351,12 +363,18 @@ func (p *Payload) extractCriticalFieldsFromBytes(data []byte, traceIdFieldNames,
 				if err == nil && traceID != "" {
 					p.MetaTraceID, traceIDRank = traceID, rank
 				}
+				if err == nil {
+					memoizeIfKeyField(traceID)
+				}
 				handled = true
 			} else if _, ok := sliceContains(parentIdFieldNames, keyBytes); ok {
 				var parentId string
 				parentId, remaining, err = msgp.ReadStringBytes(remaining)
 				if err == nil && parentId != "" {
 					p.MetaRefineryRoot.Set(false)
+				}
+				if err == nil {
+					memoizeIfKeyField(parentId)
 				}
 				handled = true
 			}
